@@ -1,4 +1,6 @@
 use vstd::std_specs::cmp::*;
+use vstd::slice::SliceIndexSpec;
+use vstd::std_specs::core::IndexSpec;
 // ===== TRUSTED: assumed specifications of std (T-std) =====
 pub assume_specification<T>[ std::slice::from_ref ](x: &T) -> (r: &[T])
     ensures r@ == seq![*x],
